@@ -183,7 +183,11 @@ def scenario(e, cfg):
                     dict(kind="workers-touch-the-same-file"))
         # (5) equals the sequential run
         seq = fresh("seq")
-        seq.write_multiprocessing(feed_writer=feed, custom_arguments=args, single_process=True)
+        try:
+            seq.write_multiprocessing(feed_writer=feed, custom_arguments=args, single_process=True)
+        except Exception as exc:  # noqa: BLE001
+            e.fail(f"{what}: the sequential (single_process) run raised {type(exc).__name__}: {str(exc)[:100]}",
+                   dict(kind=f"sequential-run-raised-{type(exc).__name__}"))
         for sp in ("train", "test"):
             a = fillerlab.read_split(d, sp) if sp in d._dataset_info.splits else []
             b = fillerlab.read_split(seq, sp) if sp in seq._dataset_info.splits else []
@@ -214,7 +218,10 @@ def real_pool_case():
     with common.scratch_dir("vt09r_") as tmp:
         d = fillerlab.make_dataset(tmp / "ds", eps=2, hashes=("md5",))
         args = [(0, [100, 101, 102], [110]), (1, [], []), (2, [140], [150])]
-        res = d.write_multiprocessing(feed_writer=feed, custom_arguments=args)
+        try:
+            res = d.write_multiprocessing(feed_writer=feed, custom_arguments=args)
+        except Exception as exc:  # noqa: BLE001
+            return False, f"write_multiprocessing with the real pool raised {type(exc).__name__}: {str(exc)[:100]}"
         ok = res == [("result-of-writer", 0, 4), ("result-of-writer", 1, 0), ("result-of-writer", 2, 2)]
         tr = fillerlab.read_split(d, "train")
         return ok and tr == [100, 101, 102, 140] and not metaoracle.audit(d), f"results {res}, train {tr}"
